@@ -90,7 +90,19 @@ def run_write(ls, sc):
     return end, res, badop, trace
 
 
+_CALL_LOG = []
+EARLIER = "earlier calls on this bank and address in this process"
+
+
 def one(ls, corr, suite, sc, key):
+    # what the library may remember from earlier calls (a cache keyed by bank / address) is part of the input:
+    # recorded with the scenario so that a replay in a fresh process repeats it
+    call = sc["call"]
+    bank = call["value"].rsplit(".", 1)[0]
+    same = [c for c in _CALL_LOG if c["value"].rsplit(".", 1)[0] == bank and (c["arg"], c["a"]) == (call["arg"], call["a"])]
+    if same and not sc.get("fault") and not sc.get("stall"):
+        sc[EARLIER] = same[-8:]
+    _CALL_LOG.append(dict(call))
     end, res, badop, trace = run_write(ls, sc)
     if end == "skip":
         return end, trace
@@ -349,14 +361,19 @@ def _correspond(ctx, corr, rng, T, ls):
         else:
             cands += [bytes(nloc), True, 0]
         for pv in cands:
-            arg = rng.choice(["g", "d"])
-            a = hot_addr(rng)
-            u = mu.mk_unit(b, rng, kind="random", dev=(arg == "d"), addr=a)
-            sc = {"unit": u, "call": {"kind": "write", "arg": arg, "a": a, "value": vk, "pyvalue": pv}}
-            end, trace = one(ls, corr, suite, sc, "write")
-            if end != "skip":
-                corr.nontrivial((vk, "write", end, str(pv)[:6]))
-                n += 1
+            # the unit's lock / latch byte as the application may have left it: locked (FF), unlocked by an earlier
+            # write that failed (55), latched (AA), odd - a write of a value that is NOT lockable leaves it alone
+            for lb in (0xFF, 0x55, rng.choice([0xAA, 0x13])):
+                arg = rng.choice(["g", "d"])
+                a = hot_addr(rng)
+                u = mu.mk_unit(b, rng, kind="random", dev=(arg == "d"), addr=a, lockByte=lb)
+                sc = {"unit": u, "call": {"kind": "write", "arg": arg, "a": a, "value": vk, "pyvalue": pv}}
+                if lb != 0xFF and rng.random() < 0.3:
+                    sc["call"]["force_unlock"] = True
+                end, trace = one(ls, corr, suite, sc, "write")
+                if end != "skip":
+                    corr.nontrivial((vk, "write", end, str(pv)[:6], lb == 0xFF))
+                    n += 1
     # invalid address arguments
     key, b, v = [x for x in vals if x[2].name == "LockByte"][0]
     for arg, a in (("o", 0), ("i", 64)):
@@ -375,6 +392,11 @@ def replay(ctx, payload):
         return True
     ls = LockStep("m_memseq")
     try:
+        for c in sc.get(EARLIER, []):
+            try:
+                run_write(ls, {"unit": sc["unit"], "call": c})
+            except Exception as e:  # noqa
+                print("earlier call", c, "->", type(e).__name__)
         end, res, badop, trace = run_write(ls, sc)
         state = ls.ask("state")
     finally:
